@@ -159,7 +159,17 @@ def fam_azimuthal_stack(ctx, rng):
     cfg = nonneg_cfg(rng, dt, n, "azimuthal")
     k = int(rng.integers(1, 13))
     cfg["azimuths"] = np.sort(rng.choice(np.arange(0, 180.5, 2.5), size=k, replace=False))
-    ctx.describe(dt=dt, n=n, **cfg)
+    polarised = None
+    if rng.random() < 0.3:
+        # linearly polarised horizontal motion (a single wave train) along psi; the azimuth set holds the direction
+        # perpendicular to it, where the horizontal spectrum is down at rounding level
+        psi = float(rng.choice(np.arange(0, 180, 2.5)))
+        s0 = np.asarray(arrays[0])
+        arrays = [np.cos(np.radians(psi)) * s0, np.sin(np.radians(psi)) * s0, np.asarray(arrays[2])]
+        cfg["azimuths"] = np.unique(np.append(cfg["azimuths"], (psi + 90.0) % 180.0))
+        k = int(cfg["azimuths"].size)
+        polarised = psi
+    ctx.describe(dt=dt, n=n, polarised_along=polarised, **cfg)
     try:
         az = run(ctx, arrays, dt, cfg)
         singles = [run(ctx, arrays, dt, dict(cfg, kind="single", method="single_azimuth", azimuth=float(a))) for a in cfg["azimuths"]]
@@ -176,8 +186,10 @@ def fam_azimuthal_stack(ctx, rng):
                                                    rng.choice([0.5, 1.0, 2.0, 99.0, 99.5, float(rng.uniform(0, 1))], 2)]))
     try:
         rot = [run(ctx, arrays, dt, dict(cfg, kind="rotdpp", method="rotdpp", percentile=p)) for p in ps]
-    except ValueError:
-        ctx.count("process_refused")
+    except ValueError as e:
+        # every azimuth of the set was processed above, so RotDpp over the same azimuths has nothing to refuse
+        ctx.check(False, "rotdpp-monotone-and-bounded", f"RotDpp refused ({e}) although every single azimuth of the set was processed",
+                  percentiles=ps, azimuths=cfg["azimuths"], op=cfg["op"], polarised_along=polarised)
         return
     A = np.vstack(az)
     lo, hi = A.min(axis=0), A.max(axis=0)
